@@ -247,6 +247,20 @@ impl Allocator {
     }
 }
 
+/// known finding F1: the inputs on which new_substr materialises the slice on the heap without a
+/// limit check: the parent is an inline atom and the slice is not itself a minimal small integer
+pub open spec fn substr_f1(a: &Allocator, node: NodePtr, start: u32, end: u32) -> bool {
+    node.tag() == 2 && start <= end && end as nat <= small_bytes(node.idx()).len() && fits(small_bytes(node.idx()).subrange(start as int, end as int)) is None
+}
+
+/// the bytes an `Atom` handle denotes
+pub open spec fn atom_view(a: Atom) -> Seq<u8> {
+    match a {
+        Atom::Borrowed(b) => b@,
+        Atom::U32(bytes, len) => if len <= 4 { bytes@.subrange(4 - len as int, 4) } else { Seq::<u8>::empty() },
+    }
+}
+
 impl Checkpoint {
     pub closed spec fn counts(&self) -> Counts {
         Counts {
